@@ -73,7 +73,8 @@ def apply_op(td, op):
     if name == "exclude":
         return td.exclude(rk(td, op[1]))
     if name == "setmul3":
-        t = td.clone(False)
+        # read an entry, compute, write: on a lazy stack vmapped along its stack dim this goes through hook_out / hook_in
+        t = td if getattr(td, "hook_in", None) is not None else td.clone(False)
         t.set(rk(td, op[2]), td.get(rk(td, op[1])) * 3)
         return t
     if name == "rename":
